@@ -71,6 +71,8 @@ def build(d):
         if style == "iobjs":        # a list of scalar Interval objects
             return pba.DempsterShafer([pba.I(a, b) for a, b in d[1]], d[2])
         return pba.DempsterShafer([list(iv) for iv in d[1]], list(d[2]))
+    if k == "SM":       # DS structure produced by the library's own mixture of two DS structures (may repeat focal elements)
+        return pba.stochastic_mixture(build(d[1]), build(d[2]))
     if k == "X":
         return float(d[1])
     if k == "O":
@@ -88,7 +90,7 @@ def bounds_of(d, obj):
         return [float(d[1])] * N, [float(d[1])] * N
     if k in ("P", "L", "Pi"):
         return [float(v) for v in obj.left], [float(v) for v in obj.right]
-    if k in ("D", "S"):
+    if k in ("D", "S", "SM"):
         p = obj.to_pbox()
         return [float(v) for v in p.left], [float(v) for v in p.right]
     return None
@@ -149,7 +151,7 @@ def snap(d, obj):
         return (float(obj.lo), float(obj.hi))
     if k in ("P", "L", "Pi"):
         return (tuple(float(v) for v in obj.left), tuple(float(v) for v in obj.right))
-    if k == "S":
+    if k in ("S", "SM"):
         return (tuple(float(v) for v in np.ravel(obj.intervals.lo)), tuple(float(v) for v in np.ravel(obj.intervals.hi)),
                 tuple(float(v) for v in np.ravel(obj.masses)))
     if k == "D":
@@ -159,18 +161,52 @@ def snap(d, obj):
     return None
 
 
-def ds_conversion_off(d, b):
-    """independent sanity check of a converted DS structure (distinct focal endpoints): the number of steps sitting on
-    focal element k's endpoints is its mass * 200 up to discretisation (+-2 steps).  Returns a description or None"""
-    los, his = [iv[0] for iv in d[1]], [iv[1] for iv in d[1]]
-    if len(set(los)) != len(los) or len(set(his)) != len(his):
-        return None
-    for (lo, hi), m in zip(d[1], d[2]):
-        nl = sum(1 for v in b[0] if v == lo)
-        nr = sum(1 for v in b[1] if v == hi)
-        if abs(nl - m * N) > 2 or abs(nr - m * N) > 2:
-            return f"focal element [{lo}, {hi}] with mass {m} occupies {nl} left / {nr} right steps of {N}"
-    return None
+def ds_reference(los, his, masses):
+    """p-box of a DS structure computed from its focal elements and masses alone (exact rationals): at probability level p the
+    left bound is the smallest lower endpoint whose cumulative mass (lower endpoints in increasing order) reaches p, the right
+    bound likewise with the upper endpoints — each side with ITS OWN ordering and cumulative masses; repeated focal elements
+    accumulate.  Returns (left, right, allowed) ; allowed[side][i] = values also accepted at step i because a cumulative mass
+    coincides with the level up to 1e-12 (binary64 cumsum may fall on either side)."""
+    import bisect
+    from pyuncertainnumber.pba.params import Params
+    ps = [F(float(p)) for p in Params.p_values]
+    eps = F(1, 10 ** 12)
+    out, allowed = [], []
+    for vals in (los, his):
+        pairs = sorted(zip([float(v) for v in vals], [F(float(m)) for m in masses]), key=lambda t: t[0])
+        cum, c = [], F(0)
+        for _, m in pairs:
+            c += m
+            cum.append(c)
+        side, alw = [], []
+        for p_ in ps:
+            j = min(bisect.bisect_left(cum, p_), len(cum) - 1)
+            side.append(pairs[j][0])
+            near = {pairs[min(t + 1, len(cum) - 1)][0] for t in range(max(0, j - 1), min(len(cum), j + 2)) if abs(cum[t] - p_) < eps}
+            near |= {pairs[t][0] for t in range(max(0, j - 1), min(len(cum), j + 2)) if abs(cum[t] - p_) < eps}
+            alw.append(near)
+        out.append(side)
+        allowed.append(alw)
+    return out[0], out[1], allowed
+
+
+def ds_ref_bounds(d, obj, lib):
+    """(reference bounds to judge with, description of the first disagreement with the library's conversion or None)"""
+    if d[0] == "S":
+        los, his, ms = [iv[0] for iv in d[1]], [iv[1] for iv in d[1]], d[2]
+    else:   # mixture: the focal elements and masses the object itself exposes
+        los, his, ms = list(np.ravel(obj.intervals.lo)), list(np.ravel(obj.intervals.hi)), list(np.ravel(obj.masses))
+    L, R, allowed = ds_reference(los, his, ms)
+    why = None
+    for side, ref, got, alw in (("left", L, lib[0], allowed[0]), ("right", R, lib[1], allowed[1])):
+        for i, (a, b) in enumerate(zip(ref, got)):
+            if a != b:
+                if b in alw[i]:
+                    ref[i] = b          # level coincides with a cumulative mass: either neighbour is right
+                elif why is None:
+                    why = (f"{side} bound at step {i} (p = {0.001 + i * 0.998 / 199:.4f}) is {b}, the focal elements "
+                           f"{[[float(x), float(y)] for x, y in zip(los, his)][:6]} with masses {[float(m) for m in ms][:6]} give {a}")
+    return (L, R), why
 
 
 def call_in(item, cont):
@@ -428,6 +464,14 @@ def gen_families(ctx):
     return fams
 
 
+def scale_op(o, sc):
+    if o[0] == "I":
+        return ["I", float(o[1]) * sc, float(o[2]) * sc]
+    if o[0] == "N":
+        return ["N", float(o[1]) * sc, "np" if o[2] == "np" else "float"]
+    return ["P", [[float(v) * sc, c] for v, c in o[1]], [[float(v) * sc, c] for v, c in o[2]]]
+
+
 def rand_masses(rng, m):
     w = [rng.choice([1, 1, 2, 3, 5, 8]) for _ in range(m)]
     t = sum(w)
@@ -481,6 +525,52 @@ def seq_families(ctx):
             ops = [["S", foc, rand_masses(rng, m), style]] + ([partner] if partner else [])
             rng.shuffle(ops)
             fams.append(("seq", ops))
+    # DS structures with repeated, nested, unordered focal elements and unequal masses; one focal element; as many focal
+    # elements as steps-2, steps-1, steps, steps+1; mixtures made by the library (shared focal elements)
+    fams += [
+        ("dss", [["S", [[1, 3], [1, 3], [2, 6]], [.4, .3, .3]]]),
+        ("dss", [["S", [[1, 3], [1, 3], [2, 6]], [.4, .3, .3]], ["I", 2, 2.5]]),
+        ("dss", [["S", [[2, 6], [1, 3], [1, 3]], [.3, .1, .6], "ivec"], ["N", 2, "int"]]),
+        ("dss", [["S", [[1, 5], [2, 3]], [.8, .2]]]),
+        ("dss", [["S", [[1, 5], [2, 3]], [.8, .2]], ["I", 2.5, 4]]),
+        ("dss", [["S", [[2, 3], [1, 5]], [.3, .7], "iobjs"], ["S", [[1, 5], [2, 3]], [.3, .7]]]),
+        ("dss", [["S", [[0, 10], [4, 5], [2, 7], [4, 5]], [.1, .4, .2, .3]], ["P", [[3, 200]], [[6, 200]]]]),
+        ("dss", [["S", [[3, 4]], [1.0]], ["I", 0, 3.5]]),
+        ("dss", [["S", [[5, 6], [1, 2], [3, 9]], [.05, .9, .05]], ["N", 1.5, "float"], ["I", 0, 4]]),
+        ("dss", [["SM", ["S", [[1, 3], [2, 6]], [.5, .5]], ["S", [[1, 3], [0, 1]], [.2, .8]]], ["I", 0.5, 2]]),
+        ("dss", [["SM", ["S", [[1, 5], [2, 3]], [.8, .2]], ["S", [[2, 3], [1, 5]], [.6, .4]]]]),
+    ]
+    for n_ in (N - 2, N - 1, N, N + 1):
+        fams.append(("dss", [["S", [[i, 2 * i + 1] for i in range(n_)], [1.0 / n_] * n_], ["I", 50, 60]]))
+        fams.append(("dss", [["S", [[(7 * i) % n_, (7 * i) % n_ + (i % 5)] for i in range(n_)], [1.0 / n_] * n_, "ivec"]]))
+    for _ in range(ctx.scale(24, 300)):
+        m = rng.choice([2, 3, 3, 4, 5])
+        pool = [[a, b] for a in range(0, 6) for b in range(a, 8)]
+        foc = [list(rng.choice(pool)) for _ in range(m)]
+        if rng.random() < .5:
+            foc[rng.randrange(m)] = list(foc[0])                    # a repeated focal element
+        if rng.random() < .5:
+            a0, b0 = foc[0]
+            foc[-1] = [a0 + (b0 - a0) // 3, b0 - (b0 - a0) // 3]    # nested in the first one
+        ds = ["S", foc, rand_masses(rng, m), rng.choice(["lists", "ivec", "iobjs"])]
+        partner = rng.choice([None, ["I", 2, 4], ["N", 3, "int"], ["P", [[1, 120], [2, 80]], [[5, 60], [6, 140]]],
+                              ["S", foc[::-1], rand_masses(rng, m)]])
+        ops = [ds] + ([partner] if partner else [])
+        rng.shuffle(ops)
+        fams.append(("dss", ops))
+    # magnitudes: exact families rescaled to tiny and huge scales (min / max / comparisons stay exact)
+    for _ in range(ctx.scale(30, 300)):
+        k = rng.choice([2, 3, 3, 4])
+        ops, mode = fam_core(rng, k, quarter=rng.random() < .4)
+        sc = rng.choice([2.0 ** -30, 2.0 ** -70, 1e-19, 1e-170, 2.0 ** 36, 1e150, 1e17])
+        fams.append(("scaled", [scale_op(o, sc) for o in ops]))
+    # falsy but valid operands
+    fams += [
+        ("extreme", [["N", 0, "int"], ["N", -0.0, "float"]]),
+        ("extreme", [["I", 0, 0], ["N", 0.0, "float"], ["P", [[0.0, 200]], [[0.0, 200]]]]),
+        ("extreme", [["N", -0.0, "np"], ["I", -1, 0]]),
+        ("extreme", [["I", 0, 0], ["I", -0.0, 0.0], ["I", 0, 1]]),
+    ]
     tiny = [[1e-9, 100], [4e-9, 100]]
     fams += [
         ("extreme", [["I", 2e-9, 8e-9], ["N", 5e-9, "float"]]),
@@ -540,7 +630,11 @@ def run(ctx: core.Check):
                 "numpy integer numbers; extreme stream: tiny (1e-9, 1e-20, 2**-60), thin (relative 1e-9) and huge (1e18) operands; "
                 "create / aggregate / drop loops per operand kind (address reuse); every first result object is kept alive and re-read "
                 "later, operands are snapshotted and compared after the calls, a sample of families is evaluated again at the end "
-                "(same objects, and rebuilt). Non-trivial = at least two operands that are not all equal; distinct on the operand descriptions.")
+                "(same objects, and rebuilt). dss stream: DS operands with repeated, nested, unordered focal elements and unequal masses, one focal "
+                "element, steps-2 / steps-1 / steps / steps+1 focal elements, library mixtures of DS structures — judged against a p-box computed "
+                "in the harness from the focal elements and masses; scaled stream: exact families at 2^-30, 2^-70, 1e-19, 1e-170, 2^36, 1e17, 1e150; "
+                "falsy operands (0, -0.0, [0,0]); interactions: operands copied / deep-copied / pickled / rebuilt from their structures, results "
+                "fed back as operands, calls inside `with dependency(...)`. Non-trivial = at least two operands that are not all equal; distinct on the operand descriptions.")
     ctx.assumptions = ["bounds of Distribution / DempsterShafer operands are taken from their own to_pbox() (C08 / C09 are about those)",
                        "moments are stubbed in the harness process (C04's concern); output_type other than 'pbox' is not exercised",
                        "vector Intervals and sample-based Distribution objects are outside the modelled operand kinds"]
@@ -559,7 +653,7 @@ def run(ctx: core.Check):
             n5 += 1
         ptok = ";".join(".".join(map(str, p)) for p in perms) if perms else "-"
         toks = " ".join(wire_op(d, b) for d, b in zip(ops, bnds))
-        fresh = stream in ("seq", "extreme")
+        fresh = stream in ("seq", "extreme", "dss")
         built.append((stream, ops, None if fresh else objs, bnds, perms))
         del objs
         reqs.append(f"envelope {N} {ptok} {toks}".rstrip())
@@ -596,6 +690,18 @@ def run(ctx: core.Check):
         if fi % 100 == 99:
             recheck_kept(120)
         valid = all(b is not None for b in bnds) and k >= 1
+        # DS operands are judged against the p-box computed here from their focal elements and masses, not against the
+        # library's own conversion (which only feeds the model); a conversion that differs is itself reported
+        obnds = list(bnds)
+        if valid:
+            for j, (d, o, b) in enumerate(zip(ops, objs, bnds)):
+                if d[0] in ("S", "SM"):
+                    obnds[j], why = ds_ref_bounds(d, o, b)
+                    ctx.count(("ds-conversion", json.dumps(d)), True, None)
+                    if why:
+                        ctx.fail({"k": k, "kinds": kinds(ops), "stream": stream.split("-")[0], "call": "convert", "check": "ds-conversion"},
+                                 {"stream": stream, "operands": ops, "operand": d},
+                                 "DS operand converted for envelope / imposition: " + why)
         nontriv = k >= 2 and any(json.dumps(o) != json.dumps(ops[0]) for o in ops[1:])
         feat0 = {"k": k, "kinds": kinds(ops), "stream": stream.split("-")[0]}
         desc = {"stream": stream, "operands": ops}
@@ -635,7 +741,7 @@ def run(ctx: core.Check):
                     ctx.fail({**feat0, "call": which, "check": "order"}, {**case, "order": perms[oi - 1], "impl_order": js(r)},
                              f"{which}: listing order {perms[oi - 1]} gives a different result from the given order")
                     break
-            Ls, Rs = [b[0] for b in bnds], [b[1] for b in bnds]
+            Ls, Rs = [b[0] for b in obnds], [b[1] for b in obnds]
             if which == "envelope":
                 wantL = [min(c) for c in zip(*Ls)]
                 wantR = [max(c) for c in zip(*Rs)]
@@ -746,8 +852,8 @@ def run(ctx: core.Check):
                 ctx.count(("assoc", json.dumps(ops[:3])), nontriv, None)
         # ---- `in` follows the ordering (pairs of operands) ---------------------------------------------
         if valid and k >= 2:
-            for (da, oa, ba_), (db, ob, bb) in itertools.permutations(list(zip(ops, objs, bnds))[:4], 2):
-                if db[0] in ("N", "D", "S"):
+            for (da, oa, ba_), (db, ob, bb) in itertools.permutations(list(zip(ops, objs, obnds))[:4], 2):
+                if db[0] in ("N", "D", "S", "SM"):
                     continue        # containers: p-boxes (and Intervals for interval / number items)
                 if db[0] == "I":
                     if da[0] not in ("I", "N"):
@@ -770,13 +876,6 @@ def run(ctx: core.Check):
             j = next(i for i, (a, b) in enumerate(zip(snap_before, snap_after)) if a != b)
             ctx.fail({**feat0, "call": "any", "check": "operand-changed"}, {**desc, "operand": ops[j]},
                      f"operand {j} ({ops[j][0]}) was modified by envelope / imposition / `in`")
-        # ---- the conversion of a DS structure honours its masses (independent count of steps) --------------------
-        if valid:
-            for d, b in zip(ops, bnds):
-                if d[0] == "S":
-                    off = ds_conversion_off(d, b)
-                    if off:
-                        ctx.fail({**feat0, "call": "convert", "check": "ds-masses"}, {**desc, "operand": d}, "converted DS structure: " + off)
         ctx.sample({"stream": stream, "operands": [o if o[0] not in ("P",) else ["P", o[1][:3], o[2][:3]] for o in ops]})
 
     # ---- address reuse: one operand at a time is created, aggregated with a fixed partner and dropped; the next one (other
@@ -812,10 +911,71 @@ def run(ctx: core.Check):
                     break
             del o
 
+    # ---- interactions: operands copied / deep-copied / pickled / rebuilt from their own read-outs before use, results fed back
+    #      as operands, calls made inside a `with dependency(...)` block: all must reproduce the first result -------------------
+    import copy, pickle
+    from pyuncertainnumber.pba.dss import DempsterShafer
+    TRANS = (("copy", copy.copy), ("deepcopy", copy.deepcopy), ("pickle", lambda x: pickle.loads(pickle.dumps(x))))
+    special = [fi for fi, b in enumerate(built) if b[0] in ("dss", "seq", "extreme")]
+    rest = [fi for fi, b in enumerate(built) if b[0] not in ("dss", "seq", "extreme", "malformed") and len(b[1]) >= 2]
+    inter = special[:: max(1, len(special) // ctx.scale(40, 300))] + rest[:: max(1, len(rest) // ctx.scale(40, 400))]
+    for fi in inter:
+        stream, ops, objs, bnds, perms = built[fi]
+        if any(b is None for b in bnds) or not ops:
+            continue
+        if objs is None:
+            objs = [build(d) for d in ops]
+        feat = {"k": len(ops), "kinds": kinds(ops), "stream": stream.split("-")[0], "call": "interaction",
+                "has_dss": any(o[0] in ("S", "SM") for o in ops)}
+        cdesc = {"stream": stream, "operands": ops}
+        variants = []
+        for tname, tf in TRANS:
+            try:
+                variants.append((tname, [tf(o) for o in objs]))
+            except BaseException as e:  # noqa
+                ctx.count(("interaction", tname, json.dumps(ops)), True, "interaction")
+                ctx.fail({**feat, "check": "copied-operand", "transform": tname, "symptom": "raises:" + core.err_kind(e)},
+                         {**cdesc, "transform": tname, "error": type(e).__name__},
+                         f"an operand cannot be passed through {tname} ({type(e).__name__}) before being aggregated")
+        if feat["has_dss"]:
+            try:
+                variants.append(("from_dsElements", [DempsterShafer.from_dsElements(o.structures) if d[0] in ("S", "SM") else o
+                                                     for d, o in zip(ops, objs)]))
+            except BaseException as e:  # noqa
+                ctx.fail({**feat, "check": "copied-operand", "transform": "from_dsElements", "symptom": "raises:" + core.err_kind(e)},
+                         {**cdesc, "transform": "from_dsElements", "error": type(e).__name__},
+                         f"a DS operand cannot be rebuilt from its own structures ({type(e).__name__})")
+        for tname, objs2 in variants:
+            for which, fn in (("envelope", envelope), ("imposition", imposition)):
+                r = call(fn, *objs2)
+                ctx.count(("interaction", tname, which, json.dumps(ops)), True, "interaction")
+                if r != first[(fi, which)]:
+                    ctx.fail({**feat, "check": "copied-operand", "transform": tname,
+                              "symptom": ("raises:" + r[1]) if r[0] == "err" else "differs"},
+                             {**cdesc, "call": which, "transform": tname, "first": js(first[(fi, which)]), "impl": js(r)},
+                             f"{which} of operands passed through {tname} differs from {which} of the originals")
+        if len(ops) >= 2:
+            for which, fn in (("envelope", envelope), ("imposition", imposition)):
+                r = call(lambda: fn(fn(*objs[:-1]), objs[-1]))
+                ctx.count(("interaction", "fed-back", which, json.dumps(ops)), True, "interaction")
+                if r != first[(fi, which)]:
+                    ctx.fail({**feat, "check": "fed-back", "symptom": ("raises:" + r[1]) if r[0] == "err" else "differs"},
+                             {**cdesc, "call": which, "first": js(first[(fi, which)]), "impl": js(r)},
+                             f"{which}({which}(all but the last operand), last operand) differs from {which} of all operands")
+        dep = ("p", "o", "i", "f")[fi % 4]
+        with _pba.dependency(dep):
+            for which, fn in (("envelope", envelope), ("imposition", imposition)):
+                r = call(fn, *objs)
+                ctx.count(("interaction", "dependency", which, json.dumps(ops)), True, "interaction")
+                if r != first[(fi, which)]:
+                    ctx.fail({**feat, "check": "dependency-block", "symptom": ("raises:" + r[1]) if r[0] == "err" else "differs"},
+                             {**cdesc, "call": which, "dependency": dep, "first": js(first[(fi, which)]), "impl": js(r)},
+                             f"{which} inside `with dependency('{dep}')` differs from the call outside")
+
     # ---- state carried between calls: re-read every kept result, re-evaluate a sample after all the unrelated calls --------
     recheck_kept()
-    again = [fi for fi, b in enumerate(built) if b[0] in ("seq", "extreme", "near-equal")]
-    others = [fi for fi, b in enumerate(built) if b[0] not in ("seq", "extreme", "near-equal", "malformed")]
+    again = [fi for fi, b in enumerate(built) if b[0] in ("seq", "extreme", "near-equal", "dss")]
+    others = [fi for fi, b in enumerate(built) if b[0] not in ("seq", "extreme", "near-equal", "dss", "malformed")]
     again += others[:: max(1, len(others) // ctx.scale(60, 600))]
     for rnd, fresh_objs in ((0, False), (1, True)):
         for fi in (again if rnd == 0 else list(reversed(again))):
